@@ -29,7 +29,7 @@ out = [
     "`meta.json` what the change needs in order to manifest and what was confirmed here (`tools/confirm_seed.sh <id>`): the patch applies,",
     "kafe2's own suite gives the same result as on the unchanged tree (841 passed + the pre-existing failure test_deriv_by_par), the",
     "demonstration fails with and passes without the change, and the property's quick check exits 1 with a VIOLATION line on a scratch copy",
-    "with the change (`tools/run_seeded.sh <id>`).  None of these changes is ever applied to /repo itself.  Four rounds were run (19, 19, 19 and 14 agents",
+    "with the change (`tools/run_seeded.sh <id>`).  None of these changes is ever applied to /repo itself.  Five rounds were run (19, 19, 19, 14 and 6 agents",
     "); patches are re-based by hand when a later repair of /repo touches the same lines (`rebased` in meta.json).  `first run` is the",
     "verdict of the check as it stood when the change arrived; `superseded` = a later repair of /repo defuses the change (its demonstration",
     "passes with the change applied).",
